@@ -124,6 +124,66 @@ Proof.
     apply lookup_oset_other. congruence.
 Qed.
 
+Lemma lookup_filter (P : string -> bool) k o :
+  lookup k (filter (fun kv => P (fst kv)) o) = if P k then lookup k o else None.
+Proof.
+  induction o as [| [k0 v] r IH]; cbn [filter fst]; [now destruct (P k) |].
+  destruct (P k0) eqn:E0; cbn [lookup]; destruct (String.eqb k k0) eqn:E.
+  - apply seqb_eq in E. subst k0. now rewrite E0.
+  - exact IH.
+  - apply seqb_eq in E. subst k0. rewrite E0 in *. exact IH.
+  - exact IH.
+Qed.
+
+Lemma lookup_merge k reg cust :
+  NoDup (keys reg) ->
+  lookup k (merge reg cust) =
+  match lookup k reg with
+  | Some v => Some v
+  | None => if fold_variant (keys reg) k then None else lookup k cust
+  end.
+Proof.
+  intros Hnd. unfold merge. rewrite lookup_overlay by exact Hnd.
+  rewrite (lookup_filter (fun x => negb (fold_variant (keys reg) x))).
+  destruct (fold_variant (keys reg) k); reflexivity.
+Qed.
+
+Lemma lookup_none_not_in k o : lookup k o = None -> ~ In k (keys o).
+Proof.
+  induction o as [| [k0 v] r IH]; cbn; [tauto |].
+  destruct (String.eqb k k0) eqn:E; [discriminate |]. apply seqb_neq in E.
+  intros H [Heq | Hin]; [congruence | now apply IH].
+Qed.
+
+Definition fold_distinctb (l : list string) : bool :=
+  forallb (fun a => forallb (fun b => negb (fold_eq a b) || String.eqb a b) l) l.
+
+Lemma fold_distinct_sound l a b :
+  fold_distinctb l = true -> In a l -> In b l -> fold_eq a b = true -> a = b.
+Proof.
+  unfold fold_distinctb. intros H Ha Hb He.
+  rewrite forallb_forall in H. specialize (H a Ha). rewrite forallb_forall in H.
+  specialize (H b Hb). rewrite He in H. cbn in H. now apply seqb_eq.
+Qed.
+
+Lemma fold_variant_absent names ks k :
+  fold_distinctb names = true -> (forall x, In x ks -> In x names) -> In k names ->
+  ~ In k ks -> fold_variant ks k = false.
+Proof.
+  intros Hd Hsub Hk Hn. unfold fold_variant.
+  destruct (existsb (fold_eq k) ks) eqn:E; [| reflexivity].
+  apply existsb_exists in E as [r [Hr He]]. exfalso. apply Hn.
+  rewrite (fold_distinct_sound names k r Hd Hk (Hsub r Hr) He). exact Hr.
+Qed.
+
+Lemma fold_variant_subset a b k :
+  (forall x, In x a -> In x b) -> fold_variant b k = false -> fold_variant a k = false.
+Proof.
+  unfold fold_variant. intros Hsub Hb. destruct (existsb (fold_eq k) a) eqn:E; [| reflexivity].
+  apply existsb_exists in E as [r [Hr He]].
+  assert (existsb (fold_eq k) b = true) by (apply existsb_exists; exists r; auto). congruence.
+Qed.
+
 (* ---------- split / join ---------- *)
 Lemma split_sp_nonempty s : split_sp s <> [].
 Proof.
@@ -218,23 +278,39 @@ Qed.
 
 (* what the encoded object holds under a registered name *)
 Lemma lookup_encode_reg sch vals claims f v :
-  NoDup (map fname sch) -> In (f, v) (combine sch vals) ->
+  NoDup (map fname sch) -> fold_distinctb (map fname sch) = true ->
+  In (f, v) (combine sch vals) ->
   lookup (fname f) (encode sch vals claims) =
   match marshal_field f v with Some j => Some j | None => lookup (fname f) claims end.
 Proof.
-  intros Hnd Hin. unfold encode.
-  rewrite lookup_overlay by (apply reg_pairs_nodup, Hnd).
-  rewrite (lookup_reg_pairs sch vals f v Hnd Hin). reflexivity.
+  intros Hnd Hfd Hin. unfold encode.
+  rewrite lookup_merge by (apply reg_pairs_nodup, Hnd).
+  rewrite (lookup_reg_pairs sch vals f v Hnd Hin).
+  destruct (marshal_field f v) eqn:Hm; [reflexivity |].
+  rewrite (fold_variant_absent (map fname sch)); [reflexivity | exact Hfd | | |].
+  - intros x. apply reg_pairs_keys.
+  - apply in_map_iff. exists f. split; [reflexivity | eapply in_combine_l; eauto].
+  - apply lookup_none_not_in. rewrite (lookup_reg_pairs sch vals f v Hnd Hin). exact Hm.
 Qed.
 
-(* ... and under any other name *)
+(* ... and under a name that is no case variant of a registered name *)
 Lemma lookup_encode_custom sch vals claims k :
-  NoDup (map fname sch) -> ~ In k (map fname sch) ->
+  NoDup (map fname sch) -> fold_variant (map fname sch) k = false ->
   lookup k (encode sch vals claims) = lookup k claims.
 Proof.
   intros Hnd Hk. unfold encode.
-  rewrite lookup_overlay by (apply reg_pairs_nodup, Hnd).
-  rewrite lookup_reg_pairs_none by exact Hk. reflexivity.
+  rewrite lookup_merge by (apply reg_pairs_nodup, Hnd).
+  assert (Hv : fold_variant (keys (reg_pairs sch vals)) k = false)
+    by (eapply fold_variant_subset; [apply reg_pairs_keys | exact Hk]).
+  rewrite Hv.
+  destruct (lookup k (reg_pairs sch vals)) as [j |] eqn:E; [| reflexivity].
+  exfalso. unfold fold_variant in Hv.
+  assert (In k (keys (reg_pairs sch vals))) as Hin.
+  { clear -E. induction (reg_pairs sch vals) as [| [k0 v0] r IH]; cbn in *; [discriminate |].
+    destruct (String.eqb k k0) eqn:Ek; [apply seqb_eq in Ek; now left | right; now apply IH]. }
+  assert (existsb (fold_eq k) (keys (reg_pairs sch vals)) = true)
+    by (apply existsb_exists; exists k; split; [exact Hin | apply seqb_refl]).
+  congruence.
 Qed.
 
 (* C12_registered_wins *)
@@ -243,7 +319,9 @@ Theorem registered_wins sch vals claims f v j :
   marshal_field f v = Some j ->
   lookup (fname f) (encode sch vals claims) = Some j.
 Proof.
-  intros Hnd Hin Hm. rewrite (lookup_encode_reg sch vals claims f v Hnd Hin), Hm. reflexivity.
+  intros Hnd Hin Hm. unfold encode.
+  rewrite lookup_merge by (apply reg_pairs_nodup, Hnd).
+  rewrite (lookup_reg_pairs sch vals f v Hnd Hin), Hm. reflexivity.
 Qed.
 
 Lemma nodupb_sound l : nodupb l = true -> NoDup l.
@@ -258,6 +336,9 @@ Qed.
 
 Lemma schema_nodup t : NoDup (map fname (schema_of t)).
 Proof. apply nodupb_sound. destruct t; vm_compute; reflexivity. Qed.
+
+Lemma schema_fold_distinct t : fold_distinctb (map fname (schema_of t)) = true.
+Proof. destruct t; vm_compute; reflexivity. Qed.
 
 (* ---------- actors ---------- *)
 Section ActorInd.
@@ -290,7 +371,7 @@ Definition actor_pairs (act : option actor) (iss sub : string) : obj :=
   ++ str_pair "iss" iss ++ str_pair "sub" sub.
 
 Lemma enc_actor_eq act iss sub cl :
-  enc_actor (Actor act iss sub cl) = JObj (overlay (actor_pairs act iss sub) cl).
+  enc_actor (Actor act iss sub cl) = JObj (merge (actor_pairs act iss sub) cl).
 Proof. reflexivity. Qed.
 
 Lemma actor_pairs_nodup act iss sub : NoDup (keys (actor_pairs act iss sub)).
@@ -325,6 +406,24 @@ Qed.
 Lemma enc_actor_is_obj a : exists o, enc_actor a = JObj o.
 Proof. destruct a. eexists. apply enc_actor_eq. Qed.
 
+Lemma actor_pairs_keys act iss sub k : In k (keys (actor_pairs act iss sub)) -> In k actor_names.
+Proof.
+  unfold actor_pairs, str_pair, actor_names.
+  destruct act; destruct (String.eqb iss ""); destruct (String.eqb sub ""); cbn; intuition.
+Qed.
+
+Lemma lookup_merge_actor k act iss sub cl :
+  In k actor_names ->
+  lookup k (merge (actor_pairs act iss sub) cl) =
+  match lookup k (actor_pairs act iss sub) with Some v => Some v | None => lookup k cl end.
+Proof.
+  intros Hk. rewrite lookup_merge by apply actor_pairs_nodup.
+  destruct (lookup k (actor_pairs act iss sub)) eqn:E; [reflexivity |].
+  rewrite (fold_variant_absent actor_names); [reflexivity | vm_compute; reflexivity | | exact Hk |].
+  - intros x. apply actor_pairs_keys.
+  - apply lookup_none_not_in, E.
+Qed.
+
 Lemma keep_or_read_lookup s k R cl :
   lookup k R = (if String.eqb s "" then None else Some (JStr s)) ->
   dec_opt dec_str "" (match lookup k R with Some v => Some v | None => lookup k cl end)
@@ -338,7 +437,7 @@ Theorem actor_roundtrip : forall a, dec_actor (enc_actor a) = norm_actor a.
 Proof.
   induction a as [act iss sub cl IH] using actor_ind'.
   cbn [norm_actor]. rewrite enc_actor_eq, dec_actor_obj.
-  rewrite !lookup_overlay by apply actor_pairs_nodup.
+  rewrite !lookup_merge_actor by (unfold actor_names; cbn; tauto).
   rewrite (keep_or_read_lookup iss "iss") by apply actor_pairs_iss.
   rewrite (keep_or_read_lookup sub "sub") by apply actor_pairs_sub.
   rewrite actor_pairs_act.
@@ -422,14 +521,14 @@ Section Fields.
 
   (* C12_roundtrip, for every schema without a repeated name *)
   Theorem roundtrip sch vals claims :
-    NoDup (map fname sch) -> vals_wf lt sch vals = true ->
+    NoDup (map fname sch) -> fold_distinctb (map fname sch) = true -> vals_wf lt sch vals = true ->
     decode rfc lt lp sch (JObj (encode sch vals claims)) = norm rfc lt lp sch vals claims.
   Proof.
-    intros Hnd Hwf. unfold decode, norm.
+    intros Hnd Hfd Hwf. unfold decode, norm.
     rewrite (mapM_combine_ext (dec_reg rfc lt lp (encode sch vals claims)) (norm_field rfc lt lp claims) sch vals);
       [reflexivity | now apply vals_wf_length |].
     intros f v Hin. unfold dec_reg, norm_field.
-    rewrite (lookup_encode_reg sch vals claims f v Hnd Hin).
+    rewrite (lookup_encode_reg sch vals claims f v Hnd Hfd Hin).
     destruct (marshal_field f v) as [j |] eqn:Hm.
     - apply dec_marshal; [eapply vals_wf_in; eauto | exact Hm].
     - destruct (lookup (fname f) claims); reflexivity.
